@@ -260,11 +260,15 @@ impl World {
         &&& self.kept(old)
     }
 
-    /// What no operation of ours changes (configuration), or only changes monotonically.
+    /// What no filesystem operation of ours changes (configuration), or only changes monotonically.
     pub open spec fn kept(self, old: World) -> bool {
+        self.kept_nc(old) && self.counter == old.counter
+    }
+
+    /// `kept` for operations that also observe the periodic trigger (the countdown changes).
+    pub open spec fn kept_nc(self, old: World) -> bool {
         &&& self.owned == old.owned
         &&& self.supplied == old.supplied
-        &&& self.counter == old.counter
         &&& self.cache_dirs == old.cache_dirs
         &&& self.ro_roots == old.ro_roots
         &&& self.must_sync == old.must_sync
